@@ -12,10 +12,12 @@ namespace BoaVerif.C17.Async
 structure AGraph where
   deps : List (List Nat)
   awaits : List Nat            -- awaits[m] = number of top-level awaits of m (0: synchronous module)
+  throws : List Bool := []     -- throws[m]: the body throws instead of printing its last line
   deriving Repr
 
 def AGraph.depsOf (g : AGraph) (m : Nat) : List Nat := g.deps.getD m []
 def AGraph.hasTLA (g : AGraph) (m : Nat) : Bool := g.awaits.getD m 0 > 0
+def AGraph.throwsAt (g : AGraph) (m : Nat) : Bool := g.throws.getD m false
 
 inductive Status | fresh | evaluating | evaluatingAsync | evaluated
   deriving Repr, DecidableEq
@@ -28,11 +30,13 @@ structure Rec where
   pending : Nat := 0
   parents : List Nat := []
   cycleRoot : Nat := 0
+  err : Option Nat := none      -- [[EvaluationError]]: the module whose body threw
   deriving Repr
 
 inductive Job
   | resume (m : Nat) (left : Nat)     -- continue the body of m after an await; `left` awaits remain
   | fulfilled (m : Nat)               -- the reaction of ExecuteAsyncModule's promise: AsyncModuleExecutionFulfilled(m)
+  | rejected (m : Nat)                -- the other reaction: AsyncModuleExecutionRejected(m, error thrown by m)
   deriving Repr
 
 /-- a trace event: (module, false) = "m:s", (module, true) = "m:e" -/
@@ -45,6 +49,7 @@ structure St where
   asyncCount : Nat := 0
   queue : List Job := []        -- FIFO, head runs next
   trace : List Ev := []         -- most recent LAST
+  error : Option Nat := none    -- abrupt completion travelling up InnerModuleEvaluation (the module that threw)
   deriving Repr
 
 def St.init (n : Nat) : St := { recs := List.replicate n {} }
@@ -62,8 +67,9 @@ def enqueue (s : St) (j : Job) : St := { s with queue := s.queue ++ [j] }
 def startAsync (g : AGraph) (s : St) (m : Nat) : St :=
   enqueue (emit s m false) (.resume m (g.awaits.getD m 0 - 1))
 
-/-- ExecuteModule of a synchronous body -/
-def execSync (s : St) (m : Nat) : St := emit (emit s m false) m true
+/-- ExecuteModule of a synchronous body: (state, threw) -/
+def execSync (g : AGraph) (s : St) (m : Nat) : St × Bool :=
+  if g.throwsAt m then (emit s m false, true) else (emit (emit s m false) m true, false)
 
 /-- step 16 of InnerModuleEvaluation: pop the stack through `m`; every popped module gets `m` as its cycle root and
     becomes evaluating-async (if it has an async evaluation order) or evaluated — keeping ITS OWN pending count -/
@@ -77,14 +83,21 @@ def popThrough (s : St) (m : Nat) : St :=
 def visit (g : AGraph) : Nat → St → Nat → St
   | 0, s, _ => s
   | fuel + 1, s, m =>
+    if s.error.isSome then s else
     match (s.recOf m).status with
-    | .evaluatingAsync | .evaluated | .evaluating => s
+    | .evaluating => s
+    | .evaluatingAsync | .evaluated =>
+      -- step 11.c.iv.3 is applied by the caller; Evaluate itself (step 4-5) looks at the cycle root
+      s
     | .fresh =>
       let s := s.modRec m (fun r => { r with status := .evaluating, idx := s.idx, anc := s.idx, pending := 0, cycleRoot := m })
       let s := { s with idx := s.idx + 1, stack := m :: s.stack }
       let s := (g.depsOf m).foldl (fun acc d =>
         let acc := visit g fuel acc d
+        if acc.error.isSome then acc else
         let rd := acc.recOf d
+        -- iv.3: a finished required module whose cycle root recorded an error rethrows it
+        if rd.status != .evaluating && (acc.recOf rd.cycleRoot).err.isSome then { acc with error := (acc.recOf rd.cycleRoot).err } else
         -- the module whose async state counts: d itself while it is on the stack, else its cycle root
         let (req, asyncEval, acc) :=
           if rd.status == .evaluating then
@@ -94,13 +107,17 @@ def visit (g : AGraph) : Nat → St → Nat → St
         if asyncEval then
           (acc.modRec m (fun r => { r with pending := r.pending + 1 })).modRec req (fun r => { r with parents := r.parents ++ [m] })
         else acc) s
+      if s.error.isSome then s else
       let rm := s.recOf m
       let s :=
         if rm.pending > 0 || g.hasTLA m then
           let s := { s.modRec m (fun r => { r with asyncOrder := some s.asyncCount }) with asyncCount := s.asyncCount + 1 }
           if rm.pending == 0 then startAsync g s m else s
-        else execSync s m
-      if (s.recOf m).anc == (s.recOf m).idx then popThrough s m else s
+        else
+          let (s', threw) := execSync g s m
+          if threw then { s' with error := some m } else s'
+      if s.error.isSome then s
+      else if (s.recOf m).anc == (s.recOf m).idx then popThrough s m else s
 
 /-- GatherAvailableAncestors ([[AsyncParentModules]] is only read) -/
 def gather (g : AGraph) : Nat → St → Nat → List Nat → St × List Nat
@@ -109,7 +126,8 @@ def gather (g : AGraph) : Nat → St → Nat → List Nat → St × List Nat
     let ps := (s.recOf m).parents
     ps.foldl (fun (acc : St × List Nat) p =>
       let (s, ex) := acc
-      if ex.contains p then (s, ex)
+      -- 1.a: only parents that are not yet in the list and whose cycle root has recorded no error
+      if ex.contains p || (s.recOf (s.recOf p).cycleRoot).err.isSome then (s, ex)
       else
         let s := s.modRec p (fun r => { r with pending := r.pending - 1 })
         if (s.recOf p).pending == 0 then
@@ -121,6 +139,15 @@ def insertByOrder (s : St) (x : Nat) : List Nat → List Nat
   | [] => [x]
   | y :: ys => if ((s.recOf x).asyncOrder.getD 0) ≤ ((s.recOf y).asyncOrder.getD 0) then x :: y :: ys else y :: insertByOrder s x ys
 
+/-- AsyncModuleExecutionRejected(m, error): m and, recursively, every async parent record the error -/
+def rejectedBy : Nat → St → Nat → Nat → St
+  | 0, s, _, _ => s
+  | fuel + 1, s, m, e =>
+    if (s.recOf m).status == .evaluated then s
+    else
+      let s := s.modRec m (fun r => { r with status := .evaluated, err := some e })
+      (s.recOf m).parents.foldl (fun acc p => rejectedBy fuel acc p e) s
+
 /-- AsyncModuleExecutionFulfilled -/
 def fulfilled (g : AGraph) (s : St) (m : Nat) : St :=
   if (s.recOf m).status == .evaluated then s
@@ -131,12 +158,16 @@ def fulfilled (g : AGraph) (s : St) (m : Nat) : St :=
     sorted.foldl (fun s x =>
       if (s.recOf x).status == .evaluated then s
       else if g.hasTLA x then startAsync g s x
-      else (execSync s x).modRec x (fun r => { r with status := .evaluated })) s
+      else
+        let (s', threw) := execSync g s x
+        if threw then rejectedBy (g.deps.length + 1) s' x x
+        else s'.modRec x (fun r => { r with status := .evaluated })) s
 
 def runJob (g : AGraph) (s : St) : Job → St
-  | .resume m 0 => enqueue (emit s m true) (.fulfilled m)
+  | .resume m 0 => if g.throwsAt m then enqueue s (.rejected m) else enqueue (emit s m true) (.fulfilled m)
   | .resume m (k + 1) => enqueue s (.resume m k)
   | .fulfilled m => fulfilled g s m
+  | .rejected m => rejectedBy (g.deps.length + 1) s m m
 
 def drain (g : AGraph) : Nat → St → St
   | 0, s => s
@@ -147,8 +178,19 @@ def drain (g : AGraph) : Nat → St → St
 
 /-- Evaluate(root) followed by the host running jobs until the queue is empty -/
 def evaluate (g : AGraph) (s : St) (root : Nat) : St :=
-  let s := visit g (g.deps.length + 2) { s with stack := [], idx := 0 } root
+  let s := visit g (g.deps.length + 2) { s with stack := [], idx := 0, error := none } root
+  -- Evaluate step 9: an abrupt InnerModuleEvaluation marks every module still on the stack as evaluated with the error
+  let s := match s.error with
+    | some e => { s.stack.foldl (fun acc m => acc.modRec m (fun r => { r with status := .evaluated, err := some e, cycleRoot := m })) s with stack := [] }
+    | none => s
   drain g (8 * (g.deps.length + 1) * (g.awaits.foldl (· + ·) 4)) s
+
+/-- the promise Evaluate returns: rejected with the error recorded on the root's cycle root, fulfilled once that is evaluated -/
+def outcomeOf (s : St) (root : Nat) : String :=
+  let cr := (s.recOf root).cycleRoot
+  match (s.recOf cr).err with
+  | some e => s!"boom{e}"
+  | none => if (s.recOf cr).status == .evaluated && (s.recOf root).status == .evaluated then "-" else "pending"
 
 def showEv (e : Ev) : String := s!"m{e.1}:{if e.2 then "e" else "s"}"
 
